@@ -278,6 +278,7 @@ class ReHarvest(object):
         self.root = os.path.realpath(root) + os.sep
         self.patterns = {}
         self.events = 0
+        self.window = None          # when a set: also collects the keys seen while it is open (per-call pattern sets)
         self._orig = None
 
     def install(self):
@@ -296,6 +297,8 @@ class ReHarvest(object):
                         key = (pattern if isinstance(pattern, str) else pattern.decode("latin1"), int(flags))
                         where = "%s:%d" % (os.path.basename(fn), f.f_lineno)
                         hv.patterns.setdefault(key, set()).add(where)
+                        if hv.window is not None:
+                            hv.window.add(key)
             except Exception:
                 pass
             return orig(pattern, flags)
